@@ -325,11 +325,16 @@ impl ExtractorCompactorBackup {
     }
 
     /// Write the backup file to disk.
+    ///
+    /// The journal is rewritten through a temp file that is fsynced and then
+    /// renamed over the old one, so a crash leaves either the previous journal
+    /// or the complete new one, never a truncated file.
     pub fn save(&self) -> Result<()> {
-        let mut file = File::create(&self.path).map_err(|e| {
+        let temp_path = self.path.with_extension("tmp");
+        let mut file = File::create(&temp_path).map_err(|e| {
             StorageError::Archive(format!(
                 "failed to create compaction backup {}: {e}",
-                self.path.display()
+                temp_path.display()
             ))
         })?;
 
@@ -350,6 +355,16 @@ impl ExtractorCompactorBackup {
 
         file.flush()
             .map_err(|e| StorageError::Archive(format!("failed to flush backup: {e}")))?;
+        file.sync_all()
+            .map_err(|e| StorageError::Archive(format!("failed to fsync backup: {e}")))?;
+        drop(file);
+
+        std::fs::rename(&temp_path, &self.path).map_err(|e| {
+            StorageError::Archive(format!(
+                "failed to replace compaction backup {}: {e}",
+                self.path.display()
+            ))
+        })?;
 
         Ok(())
     }
